@@ -266,6 +266,8 @@ def run(ctx):
             scen = "readerr"
         elif "locksetScenarioCiphers" in rc_["text"]:
             scen = "ciphers"
+        elif "locksetScenarioClosed" in rc_["text"]:
+            scen = "closed"
         # what does the summary say about this pair?
         verdict, common = "outside-summary", []
         if side and ra and rb and sa and sb:
